@@ -86,6 +86,74 @@ theorem fromMappings_ok (raw : Mapping) (hd : InDomain (normalize raw))
       · intro hs
         rw [hf12n hs]; rfl
 
+/-- whenever `from_mappings` + compile succeed on an input whose normal form is in the domain —
+whatever the size — the result has the documented shape -/
+theorem builtSpec_of_ok (raw : Mapping) (hd : InDomain (normalize raw)) (b : Built)
+    (h : fromMappings raw = .ok b) : BuiltSpec (normalize raw) b := by
+  have hconf : findConflict (normalize raw) = none :=
+    (findConflict_none_iff _ (normalize_sorted raw)).2 hd.asc
+  unfold fromMappings at h
+  simp only [hconf] at h
+  generalize hm : normalize raw = m at *
+  cases h4 : createFormat4 m with
+  | trap => simp [h4] at h
+  | ok f4 =>
+    cases h12 : buildFormat12 m with
+    | none => simp [h4, h12] at h
+    | some f12 =>
+      simp only [h4, h12] at h
+      have hb : b = { fmt4 := f4, fmt12 := f12.map List.toArray } := by
+        cases f4 with
+        | none => simp at h; exact h.symm
+        | some t =>
+          by_cases ht : t.lengthFits = true
+          · simp [ht] at h; exact h.symm
+          · simp [ht] at h
+      subst hb
+      have hnone_iff := createFormat4_none_iff m hd
+      have hbmp : HasBmp m ↔ ¬ (∀ p ∈ m, p.1 > 0xFFFF) := by
+        unfold HasBmp
+        constructor
+        · rintro ⟨p, hp, hle⟩ hall
+          have := hall p hp; omega
+        · intro hn
+          apply Classical.byContradiction
+          intro hne
+          apply hn
+          intro p hp
+          rcases Nat.lt_or_ge 0xFFFF p.1 with h' | h'
+          · exact h'
+          · exact absurd ⟨p, hp, h'⟩ hne
+      refine ⟨?_, ?_, ?_, ?_⟩
+      · intro hb
+        cases f4 with
+        | none => exact absurd (hnone_iff.1 h4) (hbmp.1 hb)
+        | some t => exact ⟨t, rfl, h4⟩
+      · intro hb
+        have hall : ∀ p ∈ m, p.1 > 0xFFFF := by
+          apply Classical.byContradiction
+          intro hn
+          exact hb (hbmp.2 hn)
+        rw [hnone_iff.2 hall] at h4
+        injection h4 with h4
+        rw [← h4]
+      · intro hs
+        unfold buildFormat12 at h12
+        rw [if_pos ((any_supp_iff m).2 hs)] at h12
+        cases hc : createFormat12 m with
+        | none => simp [hc] at h12
+        | some gs =>
+          simp only [hc, Option.some.injEq] at h12
+          subst h12
+          exact ⟨gs, rfl, rfl⟩
+      · intro hs
+        unfold buildFormat12 at h12
+        have : ¬ ((m.any fun p => decide (p.1 > 0xFFFF)) = true) := fun h' => hs ((any_supp_iff m).1 h')
+        rw [if_neg this] at h12
+        injection h12 with h12
+        rw [← h12]
+        rfl
+
 /-! ## lookups through the subtables -/
 
 /-- format-12 lookups on the groups `create_format_12` writes -/
